@@ -158,20 +158,23 @@ def gen_case(ctx):
     rng = ctx.rng
     k = rng.random()
     d = gen_pos(rng)
-    rel = rng.choice(['same', 'same', 'bigger', 'smaller', 'zero', 'tie'])
+    rel = rng.choice(['same', 'same', 'bigger', 'smaller', 'zero', 'tie', 'huge'])
     if rel == 'same':
         v = d * rng.uniform(0.5, 50)
     elif rel == 'bigger':
         v = d * 10 ** rng.randint(3, 9) * rng.uniform(1, 10)
     elif rel == 'smaller':
         v = d * rng.uniform(1e-6, 0.01)
+    elif rel == 'huge':
+        # the error lies below the floating-point resolution of the value
+        v = d * 10 ** rng.randint(15, 19) * rng.uniform(1, 10)
     elif rel == 'zero':
         v = 0.0
     else:
         v = d * rng.choice([0.5, 1.5, 2.5, 10.5, 0.25])
     if rng.random() < 0.4 and v != 0:
         v = -v          # (negative zero is not representable as a rational; not generated)
-    if abs(v) > 1e15:
+    if abs(v) > 1e15 and rel != 'huge':
         v = v / 1e6
     if k < 0.8:
         return {'kind': 'format', 'v': float(v).hex(), 'd': d.hex(), 'sig': rng.choice([1, 2, 2, 3, 4, 5, 6]), 'flag': rng.choice(['', '', '+', ' ']),
